@@ -10,7 +10,7 @@ import itertools
 import os
 import random
 
-from .. import harness, explore, detsched
+from .. import harness, explore, detsched, statereset
 from ..detsched import Sched, SHIM, AbortExecution
 from ..env import crtstub
 from ..env.fs import FaultyOSUtils, ScratchDir, SinkStream, SourceStream
@@ -22,6 +22,7 @@ import s3transfer.crt as crt  # noqa: E402
 from s3transfer.subscribers import BaseSubscriber  # noqa: E402
 
 crt.threading = SHIM
+statereset.register(crt)
 PERMITS = 2
 
 
@@ -76,6 +77,7 @@ def run_crt(cfg, prefix, scratch):
     harness.install()
     scratch.reset()
     random.seed(11)
+    statereset.restore()
     s = Sched(prefix=prefix, horizon=20000)
     s.nopreempt = detsched.COARSE_SKIP
     w = World(s, cfg, scratch)
